@@ -324,6 +324,7 @@ type vC13Gen struct {
 	types   []uint16
 	classes []uint16
 	scopes  []netip.Prefix
+	recent  []vC13QKey
 }
 
 func vC13RandLabel(r *rand.Rand, special bool) []byte {
@@ -395,6 +396,22 @@ func (g *vC13Gen) caseMix(n vC13Name) vC13Name {
 		out[i] = b
 	}
 	return out
+}
+
+// a key that was used before in this history (exactly, or with the case of its
+// name changed), so that lookups, retry keys and resets meet recorded state
+func (g *vC13Gen) hot() vC13QKey {
+	if len(g.recent) == 0 || g.r.Intn(100) >= 45 {
+		k := g.qkey()
+		g.recent = append(g.recent, k)
+		return k
+	}
+	k := g.recent[g.r.Intn(len(g.recent))]
+	k.name = g.caseMix(k.name)
+	if g.r.Intn(6) == 0 {
+		k.name = append(vC13Name{vC13RandLabel(g.r, false)}, k.name...)
+	}
+	return k
 }
 
 func (g *vC13Gen) qkey() vC13QKey {
@@ -504,9 +521,82 @@ func vC13History(r *rand.Rand, quickOps int) map[string]any {
 	}
 	hits, misses, evictions, collisions := 0, 0, 0, 0
 	planted := map[string]bool{}
+	opLookup := func(k vC13QKey) {
+		tab.addQuestion(k)
+		hit, ok := st.LookupFailure(k.req(), k.scope)
+		if ok {
+			hits++
+		} else {
+			misses++
+		}
+		obs := vC13HitCoq(hit, ok)
+		ops = append(ops, fmt.Sprintf("OLookup %s %s", k.coq(), obs))
+		desc = append(desc, fmt.Sprintf("LookupFailure %s -> %s", k.coq(), obs))
+	}
+	opLookupWire := func(k vC13QKey) {
+		k.scope = netip.Prefix{}
+		tab.addQuestion(k)
+		hit, ok := st.LookupFailureWire(k.name.wire(), k.qtype, k.qclass, k.cd)
+		if ok {
+			hits++
+		} else {
+			misses++
+		}
+		obs := vC13HitCoq(hit, ok)
+		ops = append(ops, fmt.Sprintf("OLookupWire %s %d %d %v %s", k.name.coq(), k.qtype, k.qclass, k.cd, obs))
+		desc = append(desc, fmt.Sprintf("LookupFailureWire %s -> %s", k.coq(), obs))
+	}
+	opRetryKey := func(k vC13QKey) {
+		tab.addQuestion(k)
+		key, ok := st.FailureRetryKey(k.req(), k.scope)
+		obs := "None"
+		if ok {
+			obs = fmt.Sprintf("(Some %d%%N)", key)
+		}
+		ops = append(ops, fmt.Sprintf("ORetryKey %s %s", k.coq(), obs))
+		desc = append(desc, fmt.Sprintf("FailureRetryKey %s -> %s", k.coq(), obs))
+	}
 	nops := quickOps/2 + r.Intn(quickOps)
+	// a key whose streak is about to saturate: its own state, written into its
+	// own slot, expired a moment ago; the following failures renew it
+	saturating := !disabled && r.Intn(8) == 0
+	var satKey vC13QKey
+	if saturating {
+		satKey = g.hot()
+		tab.addQuestion(satKey)
+		fk := normalizeFailureQuestionKey(satKey.fkey())
+		slot := failureQuestionHash(fk)
+		e := &failureEntry{kind: FailureKindQuestion, provenance: "response", question: fk,
+			streak: ^uint32(0) - uint32(r.Intn(3)), retryAfter: clock.now.Add(-time.Duration(r.Int63n(int64(max))))}
+		before := vC13Keys(fc)
+		fc.entries.Add(slot, e)
+		ev := vC13Evicted(before, vC13Keys(fc))
+		ec := vC13EntryCoq(e.kind, e.provenance, e.streak, e.retryAfter, e.question, e.zone)
+		ops = append(ops, fmt.Sprintf("OPlant %d %s true %s", slot, ec, ev))
+		desc = append(desc, fmt.Sprintf("plant slot=%d own=true %s", slot, ec))
+		collisions++
+	}
 	for i := 0; i < nops; i++ {
 		w := r.Intn(100)
+		if saturating && i < 8 && i%2 == 0 {
+			// fail again as soon as the current generation has ended
+			if e, ok := fc.loadEntry(failureQuestionHash(normalizeFailureQuestionKey(satKey.fkey()))); ok && e != nil {
+				if dt := int64(e.retryAfter.Sub(clock.now)) + int64(r.Intn(2)); dt > 0 {
+					clock.now = clock.now.Add(time.Duration(dt))
+					ops = append(ops, fmt.Sprintf("OAdvance %d", dt))
+					desc = append(desc, fmt.Sprintf("advance %s", time.Duration(dt)))
+				}
+			}
+			before := vC13Keys(fc)
+			st.RecordFailure(satKey.req(), satKey.scope, FailureProvenance("response"), nil)
+			h := failureQuestionHash(normalizeFailureQuestionKey(satKey.fkey()))
+			ev := vC13Evicted(before, vC13Keys(fc))
+			noteSlot(h)
+			obs := vC13SlotCoq(fc, h)
+			ops = append(ops, fmt.Sprintf("ORecQ %s %s %s", satKey.coq(), ev, obs))
+			desc = append(desc, fmt.Sprintf("RecordFailure %s -> %s", satKey.coq(), obs))
+			continue
+		}
 		switch {
 		case w < 16: // time
 			var dt int64
@@ -537,7 +627,7 @@ func vC13History(r *rand.Rand, quickOps int) map[string]any {
 			ops = append(ops, fmt.Sprintf("OAdvance %d", dt))
 			desc = append(desc, fmt.Sprintf("advance %s", time.Duration(dt)))
 		case w < 34: // question failure through the Store
-			k := g.qkey()
+			k := g.hot()
 			tab.addQuestion(k)
 			before := vC13Keys(fc)
 			st.RecordFailure(k.req(), k.scope, FailureProvenance("response"), nil)
@@ -572,40 +662,11 @@ func vC13History(r *rand.Rand, quickOps int) map[string]any {
 			ops = append(ops, fmt.Sprintf("ORecZ %d %s %s %s", c, zcoq, ev, obs))
 			desc = append(desc, fmt.Sprintf("RecordZoneFailure %q class %d -> %s", zoneArg, c, obs))
 		case w < 66: // lookup
-			k := g.qkey()
-			tab.addQuestion(k)
-			hit, ok := st.LookupFailure(k.req(), k.scope)
-			if ok {
-				hits++
-			} else {
-				misses++
-			}
-			obs := vC13HitCoq(hit, ok)
-			ops = append(ops, fmt.Sprintf("OLookup %s %s", k.coq(), obs))
-			desc = append(desc, fmt.Sprintf("LookupFailure %s -> %s", k.coq(), obs))
+			opLookup(g.hot())
 		case w < 73: // wire lookup (no scope)
-			k := g.qkey()
-			k.scope = netip.Prefix{}
-			tab.addQuestion(k)
-			hit, ok := st.LookupFailureWire(k.name.wire(), k.qtype, k.qclass, k.cd)
-			if ok {
-				hits++
-			} else {
-				misses++
-			}
-			obs := vC13HitCoq(hit, ok)
-			ops = append(ops, fmt.Sprintf("OLookupWire %s %d %d %v %s", k.name.coq(), k.qtype, k.qclass, k.cd, obs))
-			desc = append(desc, fmt.Sprintf("LookupFailureWire %s -> %s", k.coq(), obs))
+			opLookupWire(g.hot())
 		case w < 80: // retry key
-			k := g.qkey()
-			tab.addQuestion(k)
-			key, ok := st.FailureRetryKey(k.req(), k.scope)
-			obs := "None"
-			if ok {
-				obs = fmt.Sprintf("(Some %d%%N)", key)
-			}
-			ops = append(ops, fmt.Sprintf("ORetryKey %s %s", k.coq(), obs))
-			desc = append(desc, fmt.Sprintf("FailureRetryKey %s -> %s", k.coq(), obs))
+			opRetryKey(g.hot())
 		case w < 83:
 			z, c := g.zone()
 			tab.addZone(z, c)
@@ -623,7 +684,7 @@ func vC13History(r *rand.Rand, quickOps int) map[string]any {
 			ops = append(ops, "OResetQ "+k.coq())
 			desc = append(desc, "resetQuestionFailure "+k.coq())
 		case w < 89:
-			k := g.qkey()
+			k := g.hot()
 			tab.addQuestion(k)
 			st.resetMatchingFailures(dns.Question{Name: k.name.pres(), Qtype: k.qtype, Qclass: k.qclass}, k.cd, k.scope)
 			ops = append(ops, "OResetMatching "+k.coq())
@@ -638,9 +699,14 @@ func vC13History(r *rand.Rand, quickOps int) map[string]any {
 			ops = append(ops, fmt.Sprintf("OLen %d", n))
 			desc = append(desc, fmt.Sprintf("FailureLen -> %d", n))
 		case w < 95: // Store.SetFromResponse: another write-back route
-			k := g.qkey()
-			k.scope = netip.Prefix{}
+			k := g.hot()
+			if r.Intn(3) != 0 {
+				k.scope = netip.Prefix{}
+			}
 			tab.addQuestion(k)
+			gk := k
+			gk.scope = netip.Prefix{}
+			tab.addQuestion(gk)
 			resp := new(dns.Msg)
 			resp.SetReply(k.req())
 			failure := r.Intn(3) != 0
@@ -652,8 +718,14 @@ func vC13History(r *rand.Rand, quickOps int) map[string]any {
 				resp.Answer = []dns.RR{&dns.A{Hdr: dns.RR_Header{Name: k.name.pres(), Rrtype: dns.TypeA, Class: k.qclass, Ttl: 300}, A: []byte{192, 0, 2, 1}}}
 			}
 			before := vC13Keys(fc)
-			st.SetFromResponse(resp, k.cd, time.Time{})
-			h := failureQuestionHash(normalizeFailureQuestionKey(k.fkey()))
+			if normalizeKeyScope(k.scope).IsValid() {
+				// the pre-keyed scoped route (ResponseWriter uses it for SCOPE>0 answers)
+				key := CacheKey{Question: resp.Question[0], CD: k.cd, Scope: k.scope}.Hash()
+				st.SetFromResponseScoped(key, resp, k.scope, time.Time{}, 0)
+			} else {
+				st.SetFromResponse(resp, k.cd, time.Time{})
+			}
+			h := failureQuestionHash(normalizeFailureQuestionKey(gk.fkey()))
 			ev := "[]%N"
 			if failure {
 				ev = vC13Evicted(before, vC13Keys(fc))
@@ -689,7 +761,10 @@ func vC13History(r *rand.Rand, quickOps int) map[string]any {
 			if disabled {
 				continue
 			}
-			victim := g.qkey()
+			victim := g.hot()
+			if r.Intn(2) == 0 {
+				victim.scope = netip.Prefix{}
+			}
 			tab.addQuestion(victim)
 			var slot uint64
 			zoneSlot := r.Intn(2) == 0
@@ -715,43 +790,64 @@ func vC13History(r *rand.Rand, quickOps int) map[string]any {
 				e.retryAfter = clock.now.Add(time.Duration(1 + r.Int63n(int64(max))))
 			}
 			alien := g.aliens[r.Intn(len(g.aliens))]
-			switch r.Intn(6) {
-			case 0: // the slot's own key with a chosen streak (saturation tests)
-				if zoneSlot {
+			vq := normalizeFailureQuestionKey(victim.fkey())
+			vzk := normalizeFailureZoneKey(FailureZoneKey{Zone: vz.pres(), Qclass: vc})
+			if zoneSlot {
+				switch r.Intn(7) {
+				case 0: // the slot's own key with a chosen streak (saturation tests)
+					e.kind, e.zone = FailureKindZone, vzk
+				case 1: // same zone, other class
+					e.kind, e.zone = FailureKindZone, FailureZoneKey{Zone: vzk.Zone, Qclass: vzk.Qclass ^ 2}
+				case 2: // other zone: a sibling whose string ends like the zone, or a foreign one
 					e.kind = FailureKindZone
-					e.zone = normalizeFailureZoneKey(FailureZoneKey{Zone: vz.pres(), Qclass: vc})
-				} else {
+					e.zone = FailureZoneKey{Zone: []vC13Name{g.names[8].lower(), alien, g.aliens[2]}[r.Intn(3)].pres(), Qclass: vc}
+				case 3: // a child of the zone: below, not above, the names that walk through this slot
+					e.kind = FailureKindZone
+					e.zone = FailureZoneKey{Zone: append(vC13Name{[]byte("k")}, vz.lower()...).pres(), Qclass: vc}
+				case 4: // the question with the zone's own preimage (SOA, CD=0, unscoped): kind confusion
 					e.kind = FailureKindQuestion
-					e.question = normalizeFailureQuestionKey(victim.fkey())
-				}
-			case 1: // alien question differing in the name only
-				e.kind = FailureKindQuestion
-				e.question = normalizeFailureQuestionKey(victim.fkey())
-				e.question.Question.Name = alien.pres()
-			case 2: // alien zone
-				e.kind = FailureKindZone
-				e.zone = FailureZoneKey{Zone: alien.pres(), Qclass: vc}
-			case 3: // alien question in the zone's shape (SOA, CD=0, unscoped)
-				e.kind = FailureKindQuestion
-				e.question = FailureQuestionKey{Question: dns.Question{Name: alien.pres(), Qtype: dns.TypeSOA, Qclass: vc}}
-			case 4: // neither kind
-				e.kind = 0
-			case 5: // alien zone whose name only differs from an ancestor in its last label
-				e.kind = FailureKindZone
-				e.zone = FailureZoneKey{Zone: g.aliens[2].pres(), Qclass: vc}
-			}
-			// one state per foreign key and history: the oracle's ledger is keyed by
-			// the failed thing, and two planted states of one key would alias there
-			if e.kind != 0 {
-				id := vC13EntryCoq(e.kind, "", 0, vC13Base, e.question, e.zone)
-				own := (e.kind == FailureKindZone && zoneSlot && failureZoneHash(e.zone) == slot) ||
-					(e.kind == FailureKindQuestion && !zoneSlot && failureQuestionHash(e.question) == slot)
-				if !own {
-					if planted[id] {
-						continue
+					e.question = FailureQuestionKey{Question: dns.Question{Name: vzk.Zone, Qtype: dns.TypeSOA, Qclass: vc}}
+				case 5: // neither kind
+					e.kind = 0
+				case 6: // a parent of the zone
+					e.kind = FailureKindZone
+					if len(vz) > 0 {
+						e.zone = FailureZoneKey{Zone: vz[1:].lower().pres(), Qclass: vc}
+					} else {
+						e.zone = FailureZoneKey{Zone: alien.pres(), Qclass: vc}
 					}
-					planted[id] = true
 				}
+			} else {
+				e.kind = FailureKindQuestion
+				e.question = vq
+				switch r.Intn(8) {
+				case 0: // own key
+				case 1:
+					e.question.Question.Name = []vC13Name{alien, g.names[r.Intn(len(g.names))].lower()}[r.Intn(2)].pres()
+				case 2:
+					e.question.Question.Qtype = []uint16{dns.TypeA, dns.TypeAAAA, dns.TypeSOA, dns.TypeMX}[r.Intn(4)]
+				case 3:
+					e.question.Question.Qclass ^= 2
+				case 4:
+					e.question.CD = !e.question.CD
+				case 5:
+					e.question.Scope = normalizeKeyScope(g.scopes[r.Intn(len(g.scopes))])
+				case 6: // the zone state of the very same name in the question's slot
+					e.kind, e.question = FailureKindZone, FailureQuestionKey{}
+					e.zone = FailureZoneKey{Zone: vq.Question.Name, Qclass: vq.Question.Qclass}
+				case 7:
+					e.kind, e.question = 0, FailureQuestionKey{}
+				}
+			}
+			own := (e.kind == FailureKindZone && failureZoneHash(e.zone) == slot) ||
+				(e.kind == FailureKindQuestion && failureQuestionHash(e.question) == slot)
+			// one foreign state per key and history keeps the trace readable
+			if e.kind != 0 && !own {
+				id := vC13EntryCoq(e.kind, "", 0, vC13Base, e.question, e.zone)
+				if planted[id] {
+					continue
+				}
+				planted[id] = true
 			}
 			collisions++
 			before := vC13Keys(fc)
@@ -760,8 +856,25 @@ func vC13History(r *rand.Rand, quickOps int) map[string]any {
 			ev := vC13Evicted(before, after)
 			instants = append(instants, int64(e.retryAfter.Sub(vC13Base)))
 			ec := vC13EntryCoq(e.kind, e.provenance, e.streak, e.retryAfter, e.question, e.zone)
-			ops = append(ops, fmt.Sprintf("OPlant %d %s %s", slot, ec, ev))
-			desc = append(desc, fmt.Sprintf("plant slot=%d %s", slot, ec))
+			ops = append(ops, fmt.Sprintf("OPlant %d %s %v %s", slot, ec, own, ev))
+			desc = append(desc, fmt.Sprintf("plant slot=%d own=%v %s", slot, own, ec))
+			// what the slot's rightful key sees now
+			probe := victim
+			if zoneSlot {
+				probe = vC13QKey{name: append(vC13Name{vC13RandLabel(r, false)}, vz...), qtype: dns.TypeA, qclass: vc, cd: r.Intn(2) == 0, scope: g.scopes[r.Intn(len(g.scopes))]}
+				if r.Intn(3) == 0 {
+					probe.name = vz
+				}
+			}
+			if r.Intn(4) != 0 {
+				opLookup(probe)
+			}
+			if r.Intn(4) != 0 && (zoneSlot || !victim.scope.IsValid()) {
+				opLookupWire(probe)
+			}
+			if r.Intn(3) == 0 {
+				opRetryKey(probe)
+			}
 		}
 	}
 	final, n := vC13Dump(fc)
